@@ -241,6 +241,9 @@ func GenVal(r *Rand, cfg GenCfg, depth int) Val {
 						key = append(key, 'x')
 					}
 				}
+			} else if r.Chance(1, 12) {
+				// keys that read as numbers, canonically spelled or not (a map key is text: "7", "07" and "+7" are three keys)
+				key = []byte([]string{"0", "1", "7", "01", "007", "+1", "+7", "-0", "00", "-1", "1e0", "18446744073709551616"}[r.Intn(12)])
 			} else {
 				key = GenStrBytes(r, cfg)
 			}
